@@ -571,18 +571,19 @@ impl<Db: Database> StorageManager<Db> {
         // we can with what's in the transaction log
         if self.is_transaction_active() {
             let transaction_records = self.transaction.get_users_states(usernames, flag);
-            for (label, value_state) in transaction_records.into_iter() {
-                if let Some((epoch, _)) = data.get(&label) {
-                    // there is an existing DB record, check if we should updated it from the transaction log
-                    if let Some(updated_record) =
-                        Self::compare_db_and_transaction_records(*epoch, value_state, flag)
-                    {
-                        data.insert(label, (*epoch, updated_record.value));
+            for (label, _) in transaction_records.into_iter() {
+                // The bulk database answer only carries (version, value), which is not enough to
+                // decide whether the pending record or the stored one is the right answer for this
+                // flag (that needs the epochs). Resolve users with pending records through the
+                // single-user query, which merges the transaction log and the database correctly.
+                match self.get_user_state(&label, flag).await {
+                    Ok(state) => {
+                        data.insert(label, (state.version, state.value));
                     }
-                } else {
-                    // there is no db-equivalent record, but there IS a record in the transaction log.
-                    // Take the transaction log value
-                    data.insert(label, (value_state.epoch, value_state.value));
+                    Err(StorageError::NotFound(_)) => {
+                        data.remove(&label);
+                    }
+                    Err(other) => return Err(other),
                 }
             }
         }
